@@ -67,8 +67,20 @@ def table_spacing(fe, Tn):
     Ts = np.asarray(fe._interpolationPoints, dtype=float)
     d = np.diff(Ts)
     j = int(np.argmin(d))
-    return {"min_over_median": float(d[j] / np.median(d)),
-            "at_start": bool(abs(Ts[j] - Tn) < 1e-12 * Tn or abs(Ts[j + 1] - Tn) < 1e-12 * Tn)}
+    out = {"min_over_median": float(d[j] / np.median(d)),
+           "at_start": bool(abs(Ts[j] - Tn) < 1e-12 * Tn or abs(Ts[j + 1] - Tn) < 1e-12 * Tn)}
+    # is the row at the starting temperature (located by the minimiser) an outlier among
+    # its neighbours (located by the ODE + re-minimisation)?  measure: distance from the
+    # mean of the two neighbours in units of the field scale of the table
+    vals = np.asarray(fe._interpolationValues, dtype=float)[:, :-1]
+    k = int(np.argmin(np.abs(Ts - Tn)))
+    if 0 < k < len(Ts) - 1:
+        scale = float(np.max(np.abs(vals))) + 1e-300
+        jump = float(np.max(np.abs(vals[k] - 0.5 * (vals[k - 1] + vals[k + 1]))))
+        nb = float(np.max(np.abs(vals[k + 1] - vals[k - 1])))
+        out["start_row_jump_over_neighbour_spread"] = jump / (nb + 1e-300)
+        out["start_row_jump_over_scale"] = jump / scale
+    return out
 
 
 def _pipeline(spec, cfg, solve, out, stats):
